@@ -385,8 +385,19 @@ func c14Marshal(s avro.Schema) (res c14Marsh) {
 		}
 	}()
 	b, err := s.Marshal()
+	// the bytes an earlier call returned belong to its caller: a later Marshal must not change them
+	if c14PrevBytes != nil && string(c14PrevBytes) != c14PrevSnap && c14Clobbered == "" {
+		c14Clobbered = fmt.Sprintf("the document returned by an earlier Marshal call (%s) reads %s after a later call", trunc200(c14PrevSnap), trunc200(string(c14PrevBytes)))
+	}
+	c14PrevBytes, c14PrevSnap = b, string(b)
 	return c14Marsh{B: b, Err: err}
 }
+
+var (
+	c14PrevBytes []byte
+	c14PrevSnap  string
+	c14Clobbered string
+)
 
 // canonical form for comparisons: nil and empty slices are identified
 func c14Canon(s avro.Schema) string { return coqSchema(s) }
@@ -1240,6 +1251,9 @@ func runC14(r *Run) {
 
 	// (E) malformed, text level -----------------------------------------------------------------
 	c.malformedText(keep)
+	if c14Clobbered != "" {
+		r.Fail(-1, "marshal-result-clobbered", c14Clobbered, map[string]any{"kind": "marshal-twice"})
+	}
 }
 
 // c14Skeleton returns a small valid document in which the value of one attribute can be
